@@ -113,9 +113,12 @@ def _untla(text):
 
 def tlc(module, cfg, workers=16, simulate=None, depth=None, tlc_seed=None, timeout=3600, env=None,
         coverage=True, expect_violation=False, tag=None, deadlock=None, extra_args=None, keep_output=False,
-        dfs=False):
+        dfs=False, share=False):
     """
     Run TLC on spec/<module>.tla with configuration spec/<cfg>.
+
+    share: the values of the emitted vectors that are equal become one object (millions of vectors over a few thousand
+    tables and configurations then fit into memory); the caller must not change them in place.
 
     simulate: None for exhaustive model checking, else the "num" of behaviours for -simulate.
     Returns a TlcResult. Raises MachineryError on a TLC crash / parse error /
@@ -161,13 +164,26 @@ def tlc(module, cfg, workers=16, simulate=None, depth=None, tlc_seed=None, timeo
     # TLC drops trace-explorer leftovers next to the module only with -generateSpecTE; nothing to remove.
     sim_generated = 0
     other_lines = []
-    for line in output.splitlines():
+    shared = {}
+
+    def shared_value(value):
+        if isinstance(value, (list, dict)):
+            key = json.dumps(value, sort_keys=True)
+            return shared.setdefault(key, value)
+        return value
+
+    import io
+    for line in io.StringIO(output):
+        line = line.rstrip("\r\n")
         match = _VEC_RE.match(line)
         if match:
             try:
-                result.vectors.append((match.group(1), json.loads(_untla(match.group(2)))))
+                vector = json.loads(_untla(match.group(2)))
             except ValueError as error:
                 raise MachineryError("cannot parse TLC vector line: %r (%s)" % (line[:200], error))
+            if share and isinstance(vector, dict):
+                vector = {sys.intern(key): shared_value(value) for key, value in vector.items()}
+            result.vectors.append((match.group(1), vector))
             continue
         other_lines.append(line)
         match = _COV_RE.match(line)
